@@ -66,6 +66,9 @@ def scalarise(trees: List[Tuple[str, ast.Module]], known: Set[str]) -> List[str]
         for fn in ast.walk(tree):
             if not isinstance(fn, (ast.FunctionDef, ast.AsyncFunctionDef)):
                 continue
+            if getattr(fn, "_jv_ret_nt", None) in nts:  # decided by an earlier pass (its returns are tuple displays by now)
+                returns.setdefault(fn.name, set()).add(fn._jv_ret_nt)  # type: ignore[attr-defined]
+                continue
             rets = [r for r in ast.walk(fn) if isinstance(r, ast.Return)]
             kinds = set()
             for r in rets:
@@ -76,6 +79,7 @@ def scalarise(trees: List[Tuple[str, ast.Module]], known: Set[str]) -> List[str]
                     kinds.add("")
             if rets and len(kinds) == 1 and "" not in kinds:
                 returns.setdefault(fn.name, set()).add(next(iter(kinds)))
+                fn._jv_ret_nt = next(iter(kinds))  # type: ignore[attr-defined]
     ret_nt = {f: next(iter(k)) for f, k in returns.items() if len(k) == 1}
     defs_per_name: Dict[str, int] = {}
     for _mod, tree in trees:
@@ -188,45 +192,48 @@ def _unpack_subscripted_locals(fn: ast.AST, nts: Dict[str, List[str]], ret_nt: D
             else:
                 stores.setdefault(n.id, []).append(n)
     for name, st_nodes in stores.items():
-        if len(st_nodes) != 1 or len(subs.get(name, [])) != len(uses.get(name, [])) or not subs.get(name):
+        if len(subs.get(name, [])) != len(uses.get(name, [])) or not subs.get(name):
             continue
-        asg = parents.get(id(st_nodes[0]))
-        if not (isinstance(asg, ast.Assign) and len(asg.targets) == 1 and asg.targets[0] is st_nodes[0]):
-            continue
-        v = asg.value
+        asgs = []
         arity = None
-        if isinstance(v, ast.Tuple):
-            arity = len(v.elts)
-        elif isinstance(v, ast.Call) and getattr(v, "_jv_arity", None) is not None:
-            arity = v._jv_arity  # type: ignore[attr-defined]
-            asg.value = v.args[0]  # `a, b, c = tuple(xs)` is `a, b, c = xs`
-        elif isinstance(v, ast.Call):
-            f = v.func
-            nm = f.id if isinstance(f, ast.Name) else (f.attr if isinstance(f, ast.Attribute) else None)
-            if nm in ret_nt:
-                arity = len(nts[ret_nt[nm]])
-        if arity is None or any(not (0 <= s.slice.value < arity) for s in subs[name]):
-            continue
-        # the block that holds the assignment
-        blk = parents.get(id(asg))
-        body = None
-        for fld in ("body", "orelse", "finalbody"):
-            b = getattr(blk, fld, None)
-            if isinstance(b, list) and asg in b:
-                body = b
-        if body is None:
+        ok = True
+        for sn in st_nodes:
+            asg = parents.get(id(sn))
+            if not (isinstance(asg, ast.Assign) and len(asg.targets) == 1 and asg.targets[0] is sn):
+                ok = False
+                break
+            v = asg.value
+            ar = None
+            if isinstance(v, ast.Tuple):
+                ar = len(v.elts)
+            elif isinstance(v, ast.Call) and getattr(v, "_jv_arity", None) is not None:
+                ar = v._jv_arity  # type: ignore[attr-defined]
+            elif isinstance(v, ast.Call):
+                f = v.func
+                nm = f.id if isinstance(f, ast.Name) else (f.attr if isinstance(f, ast.Attribute) else None)
+                if nm in ret_nt:
+                    ar = len(nts[ret_nt[nm]])
+            if ar is None or (arity is not None and ar != arity):
+                ok = False
+                break
+            arity = ar
+            asgs.append(asg)
+        if not ok or arity is None or any(not (0 <= s_.slice.value < arity) for s_ in subs[name]):
             continue
         names = [f"{name}__{i}" for i in range(arity)]
-        tgt = ast.Tuple(elts=[ast.Name(id=x, ctx=ast.Store()) for x in names], ctx=ast.Store())
-        asg.targets = [ast.copy_location(tgt, asg.targets[0])]
-        for s in subs[name]:
-            par = parents.get(id(s))
-            new = ast.copy_location(ast.Name(id=names[s.slice.value], ctx=ast.Load()), s)
+        for asg in asgs:
+            if isinstance(asg.value, ast.Call) and getattr(asg.value, "_jv_arity", None) is not None:
+                asg.value = asg.value.args[0]  # `a, b, c = tuple(xs)` is `a, b, c = xs`
+            tgt = ast.Tuple(elts=[ast.Name(id=x, ctx=ast.Store()) for x in names], ctx=ast.Store())
+            asg.targets = [ast.copy_location(tgt, asg.targets[0])]
+        for s_ in subs[name]:
+            par = parents.get(id(s_))
+            new_ = ast.copy_location(ast.Name(id=names[s_.slice.value], ctx=ast.Load()), s_)
             for fld, val in ast.iter_fields(par):
-                if val is s:
-                    setattr(par, fld, new)
+                if val is s_:
+                    setattr(par, fld, new_)
                 elif isinstance(val, list):
                     for j, x in enumerate(val):
-                        if x is s:
-                            val[j] = new
+                        if x is s_:
+                            val[j] = new_
         ast.fix_missing_locations(fn)
